@@ -9,6 +9,8 @@ import QRV.Model.RMQR
 import QRV.Spec.Bits
 import QRV.Model.Render
 import QRV.Spec.Symbol
+import QRV.Spec.SymbolMicro
+import QRV.Spec.SymbolRMQR
 /-
 Line-protocol driver over the executable model: one operation per input line, one canonical
 result per output line.  The Go harness (harness/main) reads the same lines and calls the real
@@ -100,6 +102,81 @@ def specSymbolQR (q : Sym.QRCode) (m : Nat) : String := Id.run do
       | _ => return "spec-set"
     k := k + 1
   return "ok " ++ img.render
+
+def specSymbolRMQR (q : Sym.QRCode) : String := Id.run do
+  let v := q.version.toNat
+  let l := q.level.toNat
+  let w := Spec.Patterns.RMQR.width v
+  let h := Spec.Patterns.RMQR.height v
+  match Spec.Valid.RMQR.row v l with
+  | none => return "spec-no-row"
+  | some c =>
+    let st := Spec.Symbol.RMQR.stream q c
+    if st.length != 8 * c.data then return "spec-stream-length"
+    let data := Spec.Bits.pack st
+    let mut blks : Array (List Nat × List Nat) := #[]
+    let mut rest := data
+    for (d, e) in Lemmas.RT.sizesOf c.blocks do
+      let dd := rest.take d
+      rest := rest.drop d
+      match RS.parity e dd with
+      | .ok par =>
+        if par.length != e then return "spec-parity-length"
+        if !((List.range e).all fun i => Spec.RS.evalS (dd ++ par) (Spec.GF.pow2 i) == 0) then return "spec-parity-mismatch"
+        blks := blks.push (dd, par)
+      | _ => return "spec-parity-failed"
+    if !rest.isEmpty then return "spec-shapes"
+    let bits := (Spec.Bits.unpack (Lemmas.RT.ilvList blks.toList)).toArray
+    let coords := Spec.Symbol.RMQR.dataCoords v
+    let mut img := Bitmap.Image.new 0 0 w h
+    for y in [0:h] do
+      for x in [0:w] do
+        if Spec.Patterns.RMQR.isFunction v x y && Spec.Symbol.RMQR.functionModule v l x y then
+          match img.setBinary x y true with
+          | .ok i => img := i
+          | _ => return "spec-set"
+    let mut k := 0
+    for (x, y) in coords do
+      let b := (bits[k]?.getD false) ^^ Spec.Symbol.RMQR.maskCond y x
+      if b then
+        match img.setBinary x y true with
+        | .ok i => img := i
+        | _ => return "spec-set"
+      k := k + 1
+    return "ok " ++ img.render
+
+def specSymbolMicro (q : Sym.QRCode) (m : Nat) : String := Id.run do
+  let v := q.version.toNat
+  let n := Spec.Patterns.Micro.size v
+  match Spec.Symbol.Micro.row v q.level.toNat with
+  | none => return "spec-no-row"
+  | some (sn, _total, dataCw, dataBits, ecc) =>
+    let st := Spec.Symbol.Micro.stream q dataBits dataCw
+    if st.length != 8 * dataCw then return "spec-stream-length"
+    let data := Spec.Bits.pack st
+    match RS.parity ecc data with
+    | .ok par =>
+      if par.length != ecc then return "spec-parity-length"
+      if !((List.range ecc).all fun i => Spec.RS.evalS (data ++ par) (Spec.GF.pow2 i) == 0) then return "spec-parity-mismatch"
+      let bits := ((Spec.Bits.unpack data).take dataBits ++ Spec.Bits.unpack par).toArray
+      let coords := Spec.Symbol.Micro.dataCoords v
+      let mut img := Bitmap.Image.new 0 0 n n
+      for y in [0:n] do
+        for x in [0:n] do
+          if Spec.Patterns.Micro.isFunction v x y && Spec.Symbol.Micro.functionModule v sn m x y then
+            match img.setBinary x y true with
+            | .ok i => img := i
+            | _ => return "spec-set"
+      let mut k := 0
+      for (x, y) in coords do
+        let b := (bits[k]?.getD false) ^^ Spec.Patterns.Micro.maskCond m y x
+        if b then
+          match img.setBinary x y true with
+          | .ok i => img := i
+          | _ => return "spec-set"
+        k := k + 1
+      return "ok " ++ img.render
+    | _ => return "spec-parity-failed"
 
 /-! ### bit-buffer operation sequences -/
 
@@ -200,6 +277,10 @@ def step (toks : List String) : String :=
     (QR.encodeToBitmap { version := v.toInt!, level := l.toInt!, mask := m.toInt!, segments := parseSegs segs }).render Bitmap.Image.render
   | "qr.spec" :: v :: l :: m :: _ :: segs =>
     specSymbolQR { version := v.toInt!, level := l.toInt!, mask := m.toInt!, segments := parseSegs segs } m.toNat!
+  | "rm.spec" :: v :: l :: _ :: segs =>
+    specSymbolRMQR { version := v.toInt!, level := l.toInt!, mask := 0, segments := parseSegs segs }
+  | "mq.spec" :: v :: l :: m :: _ :: segs =>
+    specSymbolMicro { version := v.toInt!, level := l.toInt!, mask := m.toInt!, segments := parseSegs segs } m.toNat!
   | "qr.segs" :: v :: l :: _ :: segs =>
     (QR.encodeSegments { version := v.toInt!, level := l.toInt!, mask := 0, segments := parseSegs segs } {}).render showBuf
   | "qr.bits" :: v :: l :: _ :: segs =>
